@@ -36,6 +36,10 @@ CHECKS = {
    text="Invalidation/notification effect contracts (I_obs, I_flag, I_cache) are decided on the AST, path by path, for every method of Mesh, _GroupElem, _Simu and the parameter/observer plumbing; by induction over operations they hold after any sequence of public operations. Complemented by the exhaustive enumeration of operation sequences of bounded length (11-letter mutator alphabet, interleaved assemblies) on a small Elastic simulation against a fresh simulation in the final configuration.",
    note="E-tier limits: no aliasing/reflection analysis, MPI_SIZE == 1, loops abstracted to 0/1 iterations, effect groups chosen by the contract author (cross-checked by the bounded histories). Histories: one simulation type, length <= 2 (quick) / 3 sampled (thorough), floats with 1e-11.",
    technique="contract-based verification: frame/effect contracts (must-call on every path) checked on the AST + bounded enumeration of histories as run-time contracts"),
+ "C17": dict(level="other", design="DESIGN.md 3/C17",
+   text="AT1/AT2 terms, the history maximum and the bound passed to the constrained solver are proved from the extracted source on symbolic values. The 2-D eigen-decomposition is the real method run on exact symbolic strains for every combination of generic/zero/hydrostatic/uniaxial/shear points in small fields (identities modulo s^2 = delta: complete in values). All 14 splits in 2-D and 3-D and the 3-D Lode-angle eigen code are checked by run-time contracts on the real model at designated degenerate, generic and mixed-within-element strain fields (finite, cP+cM=C, stress and energy partition, projectors vs numpy eigh).",
+   note="3-D eigen code uses arccos/cos (not algebraic): float run-time contracts only (14 designated fields, tolerance 1e-9 / 1e-6 for closed-form eigenvalues). Monotonicity of the solved damage for the unconstrained solver and staggered convergence are not addressed.",
+   technique="contract-based verification: symbolic execution of extracted closed-form code (proved) + exact execution of the real 2-D eigen method (bounded) + run-time contracts on designated states"),
 }
 NOT_APPLICABLE = {
 }
